@@ -25,6 +25,10 @@ def label(rng, width=256, kind=None):
 
 def f32_words(rng, n):
     """n float32 values, never NaN, never +-inf, including special bit patterns"""
+    if n > 512:
+        w = np.frombuffer(rng.getrandbits(32 * n).to_bytes(4 * n, "little"), dtype="<u4").copy()
+        w[(w >> 23) & 0xFF == 0xFF] &= np.uint32(~(1 << 23) & 0xFFFFFFFF)
+        return w.view("<f4")
     out = np.empty(n, dtype="<u4")
     for i in range(n):
         if rng.random() < 0.3:
@@ -83,9 +87,7 @@ def gapped(rng, n, width, m):
     """(n, width) float32 array (or (n,) if width == 0) with wholly-missing frames where m[f] is False"""
     a = f32_words(rng, n * max(width, 1)).copy()
     a = a.reshape(n, width) if width else a
-    for f, present in enumerate(m):
-        if not present:
-            a[f] = np.nan
+    a[~np.asarray(m, dtype=bool)] = np.nan
     return storage(rng, a)
 
 
@@ -174,6 +176,17 @@ def _geom(rng):
     return storage(rng, f32_words(rng, 3).copy()), storage(rng, f32_words(rng, 9).reshape(3, 3).copy()), storage(rng, f32_words(rng, 3).copy())
 
 
+def _remap(rng, b, attr, lo):
+    """any distinct in-range channel numbers are a valid map -- channel 0 anywhere, negative ones where the field is
+    signed -- whatever numbers the add methods of the tree under test would have handed out"""
+    m = getattr(b, attr)
+    if len(m) and rng.random() < 0.4:
+        new = rng.sample(range(lo, lo + len(m) + 3), len(m))
+        if 0 in range(lo, lo + len(m) + 3) and 0 not in new and len(new) > 1:
+            new[rng.randrange(1, len(new))] = 0
+        m[:] = new
+
+
 def data3d(rng, ntracks=None, n=None, fmt=None, nlinks=None, masks=None):
     from basictdf.tdfData3D import Data3D, Data3dBlockFormat, Flags, LinkType
     ntracks = rng.choice([0, 1, 2, 3]) if ntracks is None else ntracks
@@ -200,6 +213,7 @@ def emg(rng, nsig=None, n=None, masks=None):
     b = EMG(i32(rng), n, f32_scalar(rng))
     for k in range(nsig):
         b.addSignal(emg_track(rng, n, masks[k] if masks else None), channel=_free_channel(rng, b._emgMap, -5))
+    _remap(rng, b, "_emgMap", -3)
     return b
 
 
@@ -221,6 +235,7 @@ def plats_data(rng, nplat=None, n=None, masks=None):
     b = ForcePlatformsDataBlock(f32_scalar(rng), i32(rng), n)
     for k in range(nplat):
         b.add_platform(plat_data(rng, n, masks[k] if masks else None), _free_channel(rng, b._plat_map, 0))
+    _remap(rng, b, "_plat_map", 0)
     return b
 
 
@@ -232,6 +247,7 @@ def plats_cal(rng, nplat=None):
     b = ForcePlatformsCalibrationDataBlock()
     for k in range(nplat):
         b.add_platform(plat_info(rng), _free_channel(rng, b._platformMap, -5))
+    _remap(rng, b, "_platformMap", -3)
     return b
 
 
@@ -282,3 +298,69 @@ TRACK_GEN = {"MarkerTrack": marker_track, "EMGTrack": emg_track, "ForceTorqueTra
 TRACK_BLOCK = {"MarkerTrack": data3d, "EMGTrack": emg, "ForceTorqueTrack": ft3d, "PlatformData": plats_data}
 ITEM_GEN = {"PlatformInfo": plat_info, "Viewport": viewport, "SeelabCamera": seelab_cam, "BTSCamera": bts_cam,
             "OpticalChannel": opt_channel, "Event": event}
+
+
+# ----------------------------------------------------------------------------- large objects (counts past 16-bit limits)
+def large(name, seed):
+    """valid blocks whose counts cross 2**15 / 2**16 (frames, samples, points, values): numpy-generated, deterministic"""
+    r = np.random.default_rng([seed, sum(map(ord, name))])
+    n = 70000 + int(r.integers(0, 50))
+
+    def holes(a):
+        for lo, ln in ((0, 3), (100, 100), (40000, 10), (n - 2, 2)):
+            if r.random() < 0.7:
+                a[lo:lo + ln] = np.nan
+        return a
+    f4 = lambda *shape: r.standard_normal(shape).astype("<f4")
+    if name == "Data2D":
+        from basictdf.tdfData2D import Data2D, Data2DFlags
+        nc, nf = 3, 40
+        b = Data2D(nc, nf, 100, 0.0, Data2DFlags.with_distortion)
+        d = np.empty((nf, nc), dtype=object)
+        for f in range(nf):
+            for c in range(nc):
+                d[f, c] = f4(int(r.integers(850, 950)), 2) if r.random() > 0.1 else None
+        b.data = d
+        b._camMap = np.array([2, 0, 1], dtype="<u2")
+        return b
+    if name == "EMG":
+        from basictdf.tdfEMG import EMG, EMGTrack
+        b = EMG(1000, n)
+        for i in range(2):
+            b.addSignal(EMGTrack(f"s{i}", holes(f4(n))))
+        return b
+    if name == "Data3D":
+        from basictdf.tdfData3D import Data3D, MarkerTrack
+        b = Data3D(100, n, np.zeros(3, "<f4"), np.eye(3, dtype="<f4"), np.zeros(3, "<f4"))
+        for i in range(2):
+            b.add_track(MarkerTrack(f"m{i}", holes(f4(n, 3))))
+        return b
+    if name == "ForceTorque3D":
+        from basictdf.tdfForce3D import ForceTorque3D, ForceTorqueTrack
+        b = ForceTorque3D(100, n, np.zeros(3, "<f4"), np.eye(3, dtype="<f4"), np.zeros(3, "<f4"))
+        ap = holes(f4(n, 3))
+        gap = np.isnan(ap[:, 0])
+        fo, to = f4(n, 3), f4(n, 3)
+        fo[gap] = np.nan
+        to[gap] = np.nan
+        b.add_track(ForceTorqueTrack("ft", ap, fo, to))
+        return b
+    if name == "PlatformsData":
+        from basictdf.tdfForcePlatformsData import ForcePlatformsDataBlock, ForcePlatformData
+        b = ForcePlatformsDataBlock(0.0, 100, n)
+        ap = holes(f4(n, 2))
+        gap = np.isnan(ap[:, 0])
+        fo, to = f4(n, 3), f4(n)
+        fo[gap] = np.nan
+        to[gap] = np.nan
+        b.add_platform(ForcePlatformData(ap, fo, to))
+        return b
+    if name == "Events":
+        from basictdf.tdfEvents import TemporalEventsData, Event, EventsDataType
+        b = TemporalEventsData(start_time=0.5)
+        b.events = [Event("many", f4(n), EventsDataType.eventSequence), Event("one", [1.5], EventsDataType.singleEvent)]
+        return b
+    raise KeyError(name)
+
+
+LARGE = ["Data2D", "EMG", "Data3D", "ForceTorque3D", "PlatformsData", "Events"]
